@@ -416,26 +416,54 @@ def recoverOracle (c : Case) (impl : String) : String :=
 
 /-! ### C11: delimited lists parse segment by segment -/
 
-def listOracle (c : Case) (impl : String) : String :=
-  match c.g, parseObs impl with
-  | .list v _ lo hi item sep abort, some o =>
+/-- drop raw tokens until `n` tokens the filter keeps have been dropped -/
+def dropKept (f : Option Nat) : List (Spec.RawTok Tok) → Nat → List (Spec.RawTok Tok)
+  | l, 0 => l
+  | [], _ => []
+  | r :: rest, n + 1 => if Spec.keeps f r.tok then dropKept f rest n else dropKept f rest (n + 1)
+
+/-- `tail`: a plain parser of the PEG family run after the list (`both list tail`): it sees the
+stream from where the list stopped. -/
+def listOracleCore (c : Case) (o : ImplObs) (v lo : Nat) (hi : Option Nat) (item : G) (sep : Nat) (abort : List Nat)
+    (tail : Option G) : String :=
     if !Spec.supported item then "SKIP item parser outside the PEG family" else
+    if !(tail.map Spec.supported).getD true then "SKIP parser after the list outside the PEG family" else
     let lo := if v % 2 == 0 then 0 else lo
     let hi : Option Nat := if v % 2 == 0 then none else hi
     let s0 := initialPState c
     let view := s0.view
+    let res := o.results.headD ""
+    let got := (res.splitOn ":cur=").headD res
+    -- what the whole parser yields once the list has yielded `lv` and stopped after `k` kept tokens:
+    -- `none` = evaluator out of fuel, `some none` = the parser after the list fails
+    let after (lv : String) (k : Nat) : Option (Option (String × String)) :=
+      match tail with
+      | none => some (some (lv, viewFrom view k))
+      | some t =>
+        match Spec.peg c.text 4000 t { s0 with rest := dropKept s0.filter s0.rest k } with
+        | .ok tv s2 => some (some ("(" ++ lv ++ "," ++ GWire.showVal tv ++ ")", showView s2))
+        | .fail => some none
+        | _ => none
+    let judge (lv : String) (k : Nat) (nerr : Nat) (pre : String) : List String :=
+      match after lv k with
+      | none => ["?"]
+      | some none =>
+        (if res.startsWith "err:" && !res.startsWith "err:E[]recover" then []
+         else [s!"{pre}the parser after the list fails on what the list left: its error must be returned, got {got}"])
+      | some (some (ev, er)) =>
+        (match okParts res with
+         | some (iv, _, rest) =>
+           (if normalizeSp iv == normalizeSp ev then [] else [s!"{pre}entries {iv} expected {ev}"]) ++
+           (if rest == er then [] else [s!"{pre}returned lexer continues at {rest}, expected {er}"])
+         | none => [s!"{pre}the list must succeed, got {got}"]) ++
+        (if o.results.length == 1 && o.sink.length != nerr then [s!"{pre}{o.sink.length} errors reported, expected {nerr}"] else [])
+    let verdict (ps : List String) (tag : String) :=
+      if ps.contains "?" then "SKIP reference evaluator out of fuel" else
+      if ps.isEmpty then "ok" else "FAIL C11: " ++ tag ++ " && ".intercalate ps
     if hi == some 0 then
       -- the upper bound stops the list before its first segment: no entry, nothing consumed,
       -- nothing examined (so nothing reported), sink or no sink
-      let res := o.results.headD ""
-      let problems :=
-        (match okParts res with
-         | some (iv, _, rest) =>
-           (if iv == "L[]" then [] else [s!"upper bound 0: entries {iv} expected L[]"]) ++
-           (if rest == viewFrom view 0 then [] else [s!"upper bound 0: returned lexer continues at {rest}, expected {viewFrom view 0}"])
-         | none => [s!"upper bound 0: the list must succeed with no entries, got {(res.splitOn ":cur=").headD res}"]) ++
-        (if o.results.length == 1 && !o.sink.isEmpty then [s!"upper bound 0: {o.sink.length} errors reported, expected none"] else [])
-      if problems.isEmpty then "ok" else "FAIL C11: " ++ " && ".intercalate problems
+      verdict (judge "L[]" 0 0 "upper bound 0: ") ""
     else
     let ex := Spec.listSpec c.text c.filter hi item sep abort view
     let entries := ex.entries
@@ -446,30 +474,19 @@ def listOracle (c : Case) (impl : String) : String :=
     let expVal := "L[" ++ ",".intercalate (entries.map showEntry) ++ "]"
     let nbad := ex.nbad
     let tooFew := entries.length < lo
-    let expRest := viewFrom view ex.consumed
-    let res := o.results.headD ""
-    let lastBadAtEnd := ex.lastBadAtEnd
     if c.sink then
-      let problems :=
-        (match okParts res with
-         | some (iv, _, rest) =>
-           (if normalizeSp iv == normalizeSp expVal then [] else [s!"entries {iv} expected {expVal}"]) ++
-           (if rest == expRest then [] else [s!"returned lexer continues at {rest}, expected {expRest}"])
-         | none => [s!"with a sink the list must succeed, got {(res.splitOn ":cur=").headD res}"]) ++
-        (if o.sink.length == nbad + (if tooFew then 1 else 0) then []
-         else [s!"{o.sink.length} errors reported, expected {nbad}" ++ (if tooFew then " + 1 count error" else "")])
-      if problems.isEmpty then "ok"
-      else (if lastBadAtEnd then "FAIL C11: F21-bad-last-segment-without-abort-token " else "FAIL C11: ") ++ " && ".intercalate problems
+      verdict (judge expVal ex.consumed (nbad + (if tooFew then 1 else 0)) "")
+        (if ex.lastBadAtEnd then "F21-bad-last-segment-without-abort-token " else "")
     else
-      if nbad == 0 && !tooFew then
-        match okParts res with
-        | some (iv, _, rest) =>
-          if normalizeSp iv == normalizeSp expVal && rest == expRest then "ok"
-          else s!"FAIL C11: got {iv} then {rest}, expected {expVal} then {expRest}"
-        | none => s!"FAIL C11: all segments are good but the list returned {(res.splitOn ":cur=").headD res}"
+      if nbad == 0 && !tooFew then verdict (judge expVal ex.consumed 0 "all segments are good: ") ""
       else if res.startsWith "err:" then
         (if nbad == 0 && !res.startsWith "err:E[]count" then "FAIL C11: expected the count error, got " ++ res else "ok")
-      else s!"FAIL C11: without a sink a bad segment (or too few entries) must fail the list, got {(res.splitOn ":cur=").headD res}"
+      else s!"FAIL C11: without a sink a bad segment (or too few entries) must fail the list, got {got}"
+
+def listOracle (c : Case) (impl : String) : String :=
+  match c.g, parseObs impl with
+  | .list v _ lo hi item sep abort, some o => listOracleCore c o v lo hi item sep abort none
+  | .both (.list v _ lo hi item sep abort) tail, some o => listOracleCore c o v lo hi item sep abort (some tail)
   | .list .., none => "FAIL C11: " ++ impl
   | _, _ => "SKIP not a top-level list"
 
